@@ -410,6 +410,8 @@ Lemma WF_ids_live h F x : WF h F -> x ∈ ids F -> x ∈ h_live h.
 Proof. intros W H. apply (wf_owned_live _ _ W). by apply ids_subseteq_owned. Qed.
 Lemma WF_ids_lib h F x : WF h F -> x ∈ ids F -> h_own h !! x = Some Lib.
 Proof. intros W H. apply (wf_owned_lib _ _ W). by apply ids_subseteq_owned. Qed.
+Lemma WF_ids_fresh h F x : WF h F -> x ∈ ids F -> (x < h_next h)%positive.
+Proof. intros W H. apply (wf_fresh _ _ W). by apply ids_subseteq_owned. Qed.
 
 (** what the heap holds at the nodes of the forest *)
 Lemma WF_lookup_dat h F p d (cs : list positive) :
@@ -431,10 +433,10 @@ Lemma WF_refocus h h' F F' R' p d (cs cs' : list positive) FL :
   (is_ref d = true -> cs' = []) ->
   h_lnk h' = links cs' ∪ lnk_of R' FL ->
   h_dat h' = <[p := mk_dat d cs']> (dat_of FL) ->
-  h_live h' = h_live h -> h_own h' = h_own h ->
+  h_live h' = h_live h -> h_own h' = h_own h -> h_next h' = h_next h ->
   WF h' F'.
 Proof.
-  intros W HFL HR' HFL' Href Hl Hd Hlive Hown.
+  intros W HFL HR' HFL' Href Hl Hd Hlive Hown Hnext.
   assert (Hids : ids F' ≡ₚ ids F) by (by rewrite !ids_flat, HFL, HFL').
   assert (ND' : NoDup (ids F')) by (rewrite Hids; apply W).
   assert (Hown' : owned F' ≡ₚ owned F).
@@ -446,6 +448,7 @@ Proof.
   - rewrite Hown'. apply W.
   - intros b Hb. rewrite Hlive. apply (wf_owned_live _ _ W). by rewrite <- Hown'.
   - intros b Hb. rewrite Hown. apply (wf_owned_lib _ _ W). by rewrite <- Hown'.
+  - intros b Hb. rewrite Hnext. apply (wf_fresh _ _ W). by rewrite <- Hown'.
   - pose proof (wf_ref _ _ W) as HrefF. rewrite HFL in HrefF. rewrite HFL'.
     apply Forall_cons in HrefF as [[H1 H2] HrefFL]. apply Forall_cons. split; [|done].
     split; [exact Href|exact H2].
